@@ -1,6 +1,7 @@
 package harness
 
 import (
+	"fmt"
 	"math/rand"
 
 	"github.com/platinummonkey/go-concurrency-limits/core"
@@ -28,7 +29,7 @@ func init() {
 		Assumptions: []string{"rtt < 2^53 so RTTNoLoad round-trips exactly through float64"},
 	})
 	Register(&Prop{
-		ID: "C16", Bubble: false, Run: runC16, QuickRuns: 2500,
+		ID: "C16", Bubble: true, Run: runC16, QuickRuns: 2500,
 		Rule: "one run = one limit implementation (AIMD, Vegas, Gradient, Gradient2, Settable, Fixed) bare or under windowed / traced / both wrappers, 0..4 listeners registered through the outermost wrapper at seeded points of a 20..200 operation history (samples incl. faults, SetLimit for the settable limit); " +
 			"oracle after every operation: if EstimatedLimit() changed, every listener registered before the operation was called during it; every listener called has last delivered value == EstimatedLimit(); wrapper estimate == delegate estimate; the traced wrapper forwards sample arguments unchanged to a recording delegate; " +
 			"non-trivial = the estimate changed at least once while at least one listener was registered, with a listener registered after the first change; distinct = distinct choice tapes",
@@ -46,7 +47,13 @@ func runC08(r *Run) {
 	g := newEnvGen(r)
 	g.maxRTT = 1 << 52
 	if cfg.Name == "gradient2" && t.Chance(50, "g2-small-units") {
+		// small time units and a large limit: whole-unit effects on the long-term average become visible
 		g.base = []int64{10, 15, 100, 7}[t.Intn(4, "g2-base")]
+		cfg.Initial = 40 + t.Intn(300, "g2-initial")
+		cfg.Max = cfg.Initial + t.Intn(600, "g2-max")
+		cfg.Min = 1 + t.Intn(10, "g2-min")
+		cfg.LongWindow = []int{10, 50, 100}[t.Intn(3, "g2-window")]
+		cfg.Smoothing = []float64{1.0, 0.5, 0.2}[t.Intn(3, "g2-smoothing")]
 	}
 	rand.Seed(k)
 	a, err := buildAlgo(cfg, false)
@@ -342,6 +349,10 @@ func (l *recLimit) OnSample(st int64, rtt int64, f int, d bool) {
 
 func runC16(r *Run) {
 	t := r.T
+	if t.Chance(8, "concurrent") {
+		runC16Concurrent(r)
+		return
+	}
 	cfg := drawAlgoCfg(t, []string{"aimd", "vegas", "gradient", "gradient2", "settable", "fixed"}, []string{"", "windowed", "traced", "traced+windowed", "windowed+traced"})
 	a, err := buildAlgo(cfg, false)
 	if err != nil {
@@ -437,5 +448,78 @@ func runC16(r *Run) {
 		if lateReg {
 			r.Nontrivial = true
 		}
+	}
+}
+
+// runC16Concurrent: samples reported from several goroutines. Whatever the interleaving, once
+// everything has returned the last value delivered to every listener equals EstimatedLimit().
+func runC16Concurrent(r *Run) {
+	t := r.T
+	kind := t.Intn(4, "limit")
+	initial := 3 + t.Intn(10, "initial")
+	var lim core.Limit
+	switch kind {
+	case 0:
+		lim = limit.NewAIMDLimit("aimd", initial, 0.5, 1+t.Intn(2, "inc"), nil)
+	case 1:
+		lim = limit.NewTracedLimit(limit.NewAIMDLimit("aimd", initial, 0.5, 1, nil), nopLogger{})
+	case 2:
+		lim = limit.NewDefaultVegasLimitWithLimit("vegas", initial, nopLogger{}, nil)
+	default:
+		lim, _ = limit.NewGradient2Limit("g2", initial, 100, 1, func(int) int { return 2 }, 0.5, 10, nopLogger{}, nil)
+	}
+	nl := 1 + t.Intn(2, "listeners")
+	lasts := make([]int, nl)
+	calls := make([]int, nl)
+	for i := 0; i < nl; i++ {
+		i := i
+		lim.NotifyOnChange(func(v int) {
+			globalHook(kYield, "listener") // a listener that takes its time
+			lasts[i] = v
+			calls[i]++
+		})
+	}
+	nTasks := 2 + t.Intn(2, "tasks")
+	s := r.NewSched()
+	plan := ""
+	for k := 0; k < nTasks; k++ {
+		n := 1 + t.Intn(3, "samples")
+		var fs []int
+		var ds []bool
+		for j := 0; j < n; j++ {
+			fs = append(fs, []int{initial, initial + 5, 2 * initial, 1}[t.Intn(4, "inflight")])
+			ds = append(ds, t.Chance(25, "drop"))
+		}
+		plan += fmt.Sprint(fs, ds, ";")
+		s.Go("sampler", func(tk *Task) {
+			for j := range fs {
+				tk.Begin("OnSample", fs[j])
+				lim.OnSample(0, 1000+int64(j), fs[j], ds[j])
+				tk.End(nil)
+			}
+		})
+	}
+	r.Mixf("C16 concurrent kind=%d initial=%d listeners=%d plan=%s", kind, initial, nl, plan)
+	s.Run()
+	if s.Failed() != nil || s.Truncated || s.Leftover() > 0 {
+		return
+	}
+	est := lim.EstimatedLimit()
+	changed := false
+	for i := 0; i < nl; i++ {
+		if calls[i] > 0 {
+			changed = true
+			if lasts[i] != est {
+				r.Fail("listener-stale-value", fmt.Sprintf("concurrent/kind%d", kind), "samples were reported from %d goroutines; after all of them returned EstimatedLimit() is %d but the last value delivered to listener %d is %d (it was called %d times)", nTasks, est, i, lasts[i], calls[i])
+				return
+			}
+		} else if est != initial {
+			r.Fail("listener-not-notified", fmt.Sprintf("concurrent/kind%d", kind), "the estimate moved from %d to %d under concurrent samples but listener %d was never called", initial, est, i)
+			return
+		}
+	}
+	if changed {
+		r.Nontrivial = true
+		r.Probe("concurrent_notifications_checked")
 	}
 }
